@@ -8,31 +8,42 @@ variable {R : Type}
 
 /-! ## specification predicates -/
 
-/-- What the property demands of one step: a call of a live function object whose current source
-is `k` returns the value the code `k` computes on that argument (whether served from the cache or
-executed). -/
+/-- What the property demands of one step: a call through a live wrapper whose function's CURRENT
+code object has source `k` returns the value the code `k` computes on that argument (whether
+served from the cache or executed). -/
 def Correct (sem : Src → Nat → R) (st : State R) : Op → Out R → Prop
-  | .call o a, out =>
-    match dget o st.live with
-    | some (k, _) => out = .value (sem k a) false ∨ out = .value (sem k a) true
+  | .call w a, out =>
+    match lookup st w with
+    | some (_, cur, _, _) => out = .value (sem cur.2 a) false ∨ out = .value (sem cur.2 a) true
     | none => out = .notLive
   | _, _ => True
 
 /-- Every step of a history is `Correct`. -/
-def AllCorrect (ver : Version) (sem : Src → Nat → R) : State R → List Op → Prop
+def AllCorrect (cfg : Cfg) (sem : Src → Nat → R) : State R → List Op → Prop
   | _, [] => True
   | st, op :: ops =>
-    Correct sem st op (step ver sem st op).1 ∧ AllCorrect ver sem (step ver sem st op).2 ops
+    Correct sem st op (step cfg sem st op).1 ∧ AllCorrect cfg sem (step cfg sem st op).2 ops
 
-/-- An operation that does not clear anything and mentions no other source text than `k`. -/
+/-- The step does not DELETE `func_code.py` (truncations are allowed). -/
+def NoDelete : Op → Prop
+  | .damage .delete => False
+  | _ => True
+
+/-- An operation that does not clear or damage anything and mentions no other source text than `k`. -/
 def Quiet (k : Src) : Op → Prop
   | .define _ k' _ => k' = k
-  | .swap _ k' => k' = k
+  | .wrap _ _ => True
+  | .swap _ c => c.2 = k
   | .call _ _ => True
   | .check _ _ => True
   | .fresh => True
   | .clearFn _ => False
   | .clearAll => False
+  | .damage _ => False
+
+instance (op : Op) : Decidable (NoDelete op) := by
+  cases op <;> simp only [NoDelete] <;> try exact inferInstance
+  rename_i d; cases d <;> exact inferInstance
 
 instance (k : Src) (op : Op) : Decidable (Quiet k op) := by
   cases op <;> simp only [Quiet] <;> exact inferInstance
@@ -42,176 +53,273 @@ instance [DecidableEq R] (sem : Src → Nat → R) (st : State R) (op : Op) (out
   cases op <;> simp only [Correct] <;> try exact inferInstance
   split <;> exact inferInstance
 
-instance instDecidableAllCorrect [DecidableEq R] (ver : Version) (sem : Src → Nat → R) :
-    ∀ (st : State R) (ops : List Op), Decidable (AllCorrect ver sem st ops)
+instance instDecidableAllCorrect [DecidableEq R] (cfg : Cfg) (sem : Src → Nat → R) :
+    ∀ (st : State R) (ops : List Op), Decidable (AllCorrect cfg sem st ops)
   | _, [] => isTrue trivial
   | st, op :: ops =>
-    have := instDecidableAllCorrect ver sem (step ver sem st op).2 ops
+    have := instDecidableAllCorrect cfg sem (step cfg sem st op).2 ops
     show Decidable (_ ∧ _) from inferInstance
 
 /-! ## the invariant of the repaired code -/
 
-/-- * no `func_code.py` ⇒ no entry in the function's directory;
-* every entry holds the value the STORED source computes;
-* the recorded writer's code is the stored code. -/
+/-- A wrapper's cached source belongs to the code object recorded with it. -/
+def InfoOK (ic : InfoCache) : Prop :=
+  (ic.1 = none → ic.2 = none) ∧ ∀ c s, ic.1 = some c → ic.2 = some s → s = c.2
+
+/-- * no `func_code.py` ⇒ no entry in the function's directory, no recorded writer;
+* every entry holds the value the STORED source computes, and the value the recorded writer's code
+  computes; the two agree;
+* every wrapper's cached source is the source of the code object recorded with it. -/
 structure Inv (sem : Src → Nat → R) (st : State R) : Prop where
-  empty : st.code = none → st.entries = []
-  vals : ∀ c, st.code = some c → ∀ a r, dget a st.entries = some r → r = sem c a
-  writer : ∀ o s, st.writer = some (o, s) → st.code = some s
+  missing : st.code = .missing → st.entries = [] ∧ st.writer = none
+  stored : ∀ s, st.code = .ok s → ∀ a r, dget a st.entries = some r → r = sem s a
+  writer : ∀ o c, st.writer = some (o, c) → ∀ a r, dget a st.entries = some r → r = sem c.2 a
+  agree : ∀ s o c, st.code = .ok s → st.writer = some (o, c) → c.2 = s
+  wraps : ∀ w o ic, dget w st.wraps = some (o, ic) → InfoOK ic
 
 theorem inv_init (sem : Src → Nat → R) : Inv sem (init : State R) :=
-  ⟨fun _ => rfl, fun c h => by simp [init] at h, fun o s h => by simp [init] at h⟩
+  ⟨fun _ => ⟨rfl, rfl⟩, fun s h => by simp [init] at h, fun o c h => by simp [init] at h,
+    fun s o c h => by simp [init] at h, fun w o ic h => by simp [init, dget] at h⟩
 
-theorem inv_write {sem : Src → Nat → R} {st : State R} (he : st.entries = []) (o : Obj) (src : Src)
-    (named : Bool) : Inv sem (writeFuncCode st o src named) := by
-  refine ⟨fun h => by simp [writeFuncCode] at h, fun c _ a r h => ?_, fun o' s h => ?_⟩
+theorem infoOK_none : InfoOK (none, none) := ⟨fun _ => rfl, fun c s h => by cases h⟩
+
+/-- The repaired `func_code_info` returns the source of the CURRENT code object. -/
+theorem funcCodeInfo_fixed {cur : CodeId} {ic : InfoCache} (h : InfoOK ic) :
+    (funcCodeInfo Cfg.fixed cur ic).1 = cur.2 ∧ InfoOK (funcCodeInfo Cfg.fixed cur ic).2 := by
+  obtain ⟨i1, i2⟩ := ic
+  obtain ⟨h1, h2⟩ := h
+  simp only at h1 h2
+  cases i1 with
+  | none =>
+    have : i2 = none := h1 rfl
+    subst this
+    simp [funcCodeInfo, InfoOK]
+  | some c0 =>
+    by_cases e : c0 = cur
+    · subst e
+      cases i2 with
+      | none => simp [funcCodeInfo, InfoOK]
+      | some s =>
+        have := h2 c0 s rfl rfl
+        subst this
+        simp [funcCodeInfo, InfoOK]
+    · simp [funcCodeInfo, e, Cfg.fixed, InfoOK]
+
+theorem wraps_dset {st : State R} (hw : ∀ w o ic, dget w st.wraps = some (o, ic) → InfoOK ic)
+    (w : Nat) (o : Obj) {ic : InfoCache} (hic : InfoOK ic) :
+    ∀ w' o' ic', dget w' (dset w (o, ic) st.wraps) = some (o', ic') → InfoOK ic' := by
+  intro w' o' ic' h
+  by_cases e : w' = w
+  · subst e; rw [dget_dset_self] at h; cases h; exact hic
+  · rw [dget_dset_ne e] at h; exact hw w' o' ic' h
+
+/-- After the code check the directory belongs to the current code object's source. -/
+structure Post (sem : Src → Nat → R) (st : State R) (cur : CodeId) : Prop where
+  vals : ∀ a r, dget a st.entries = some r → r = sem cur.2 a
+  code : ∀ s, st.code = .ok s → s = cur.2
+  wr : ∀ o c, st.writer = some (o, c) → c.2 = cur.2
+  present : st.code ≠ .missing
+
+theorem inv_write {sem : Src → Nat → R} {st : State R} (he : st.entries = [])
+    (hw : ∀ w o ic, dget w st.wraps = some (o, ic) → InfoOK ic) (o : Obj) (cur : CodeId) (named : Bool) :
+    Inv sem (writeFuncCode st o cur cur.2 named) ∧ Post sem (writeFuncCode st o cur cur.2 named) cur := by
+  refine ⟨⟨fun h => by simp [writeFuncCode] at h, fun s _ a r h => ?_, fun o' c _ a r h => ?_,
+    fun s o' c h1 h2 => ?_, hw⟩, ⟨fun a r h => ?_, fun s h => ?_, fun o' c h => ?_, by simp [writeFuncCode]⟩⟩
   · simp [writeFuncCode, he, dget] at h
-  · cases named <;> simp [writeFuncCode] at h ⊢
-    exact h.2
+  · simp [writeFuncCode, he, dget] at h
+  · cases named <;> simp [writeFuncCode] at h1 h2
+    obtain ⟨_, rfl⟩ := h2; exact h1
+  · simp [writeFuncCode, he, dget] at h
+  · simp [writeFuncCode] at h; exact h.symm
+  · cases named <;> simp [writeFuncCode] at h
+    obtain ⟨_, rfl⟩ := h; rfl
 
-theorem inv_clearFn {sem : Src → Nat → R} (st : State R) (o : Obj) (src : Src) (named : Bool) :
-    Inv sem (clearFn st o src named) :=
-  inv_write (st := { st with entries := [] }) rfl o src named
-
-/-- The repaired shortcut is sound: it answers yes only when the stored code is this function's. -/
-theorem shortcut_sound {sem : Src → Nat → R} {st : State R} (hi : Inv sem st) {o : Obj} {src : Src}
-    (h : shortcut .fixed st o src = true) : st.code = some src := by
+/-- The repaired shortcut is sound: the directory belongs to this code object. -/
+theorem shortcut_post {sem : Src → Nat → R} {st : State R} (hi : Inv sem st) {o : Obj} {cur : CodeId}
+    (h : shortcut Cfg.fixed st o cur = true) : Post sem st cur := by
   unfold shortcut at h
   split at h
-  · simp at h
-    exact hi.writer o src h.2
+  · simp [Cfg.fixed] at h
+    obtain ⟨_, hw⟩ := h
+    refine ⟨hi.writer o cur hw, fun s hs => (hi.agree s o cur hs hw).symm, fun o' c hc => ?_, fun hm => ?_⟩
+    · rw [hw] at hc; cases hc; rfl
+    · have := (hi.missing hm).2; rw [hw] at this; cases this
   · simp at h
 
-/-- `_check_previous_func_code` (repaired): afterwards the stored code is the function's; a `True`
-answer leaves the state alone, a `False` answer leaves the directory without entries. -/
-theorem checkPrevious_spec {sem : Src → Nat → R} {st : State R} (hi : Inv sem st) (o : Obj)
-    (src : Src) (named : Bool) :
-    let r := checkPrevious .fixed st o src named
-    Inv sem r.2 ∧ r.2.code = some src ∧ r.2.live = st.live ∧
-      (r.1 = true → r.2 = st) ∧ (r.1 = false → r.2.entries = []) := by
+/-- `_check_previous_func_code` (repaired): the invariant is kept, the live functions are
+untouched, and afterwards the directory belongs to the current code object's source. -/
+theorem checkPrevious_spec {sem : Src → Nat → R} {st : State R} (hi : Inv sem st) (hn : st.code = .missing → st.entries = [])
+    (w : Nat) (o : Obj) (cur : CodeId) (named : Bool) {ic : InfoCache} (hic : InfoOK ic) :
+    let r := checkPrevious Cfg.fixed st w o cur named ic
+    Inv sem r.2 ∧ Post sem r.2 cur ∧ r.2.live = st.live := by
+  obtain ⟨f1, f2⟩ := funcCodeInfo_fixed (cur := cur) hic
+  have hw' := wraps_dset hi.wraps w o f2
   unfold checkPrevious
   split
   · rename_i hs
-    exact ⟨hi, shortcut_sound hi hs, rfl, fun _ => rfl, fun h => by simp at h⟩
-  · split
-    · rename_i hc
-      refine ⟨inv_write (hi.empty hc) _ _ _, by simp [writeFuncCode], by simp [writeFuncCode],
-        fun h => by simp at h, fun _ => by simp [writeFuncCode, hi.empty hc]⟩
-    · rename_i old hc
+    exact ⟨hi, shortcut_post hi hs, rfl⟩
+  · simp only [f1]
+    cases hc : st.code with
+    | missing =>
+      simp only
+      obtain ⟨a, b⟩ := inv_write (sem := sem)
+        (st := { st with wraps := dset w (o, (funcCodeInfo Cfg.fixed cur ic).2) st.wraps })
+        (hn hc) hw' o cur named
+      exact ⟨a, b, rfl⟩
+    | unreadable =>
+      simp only [clearWrite]
+      obtain ⟨a, b⟩ := inv_write (sem := sem)
+        (st := { st with wraps := dset w (o, (funcCodeInfo Cfg.fixed cur ic).2) st.wraps, entries := [] })
+        rfl hw' o cur named
+      exact ⟨a, b, rfl⟩
+    | other =>
+      simp only [clearWrite]
+      obtain ⟨a, b⟩ := inv_write (sem := sem)
+        (st := { st with wraps := dset w (o, (funcCodeInfo Cfg.fixed cur ic).2) st.wraps, entries := [] })
+        rfl hw' o cur named
+      exact ⟨a, b, rfl⟩
+    | ok old =>
+      simp only
       split
       · rename_i he
-        exact ⟨hi, by rw [hc, he], rfl, fun _ => rfl, fun h => by simp at h⟩
-      · exact ⟨inv_clearFn _ _ _ _, by simp [clearFn, writeFuncCode], by simp [clearFn, writeFuncCode],
-          fun h => by simp at h, fun _ => by simp [clearFn, writeFuncCode]⟩
+        subst he
+        refine ⟨⟨fun h => by simp at h, fun s hs => ?_, hi.writer, fun s o' c hs => ?_, hw'⟩,
+          ⟨hi.stored cur.2 hc, fun s hs => ?_, fun o' c hw => hi.agree cur.2 o' c hc hw, fun h => by simp at h⟩, rfl⟩
+        · simp only [CodeFile.ok.injEq] at hs; subst hs; exact hi.stored cur.2 hc
+        · simp only [CodeFile.ok.injEq] at hs; subst hs; exact hi.agree cur.2 o' c hc
+        · simp only [CodeFile.ok.injEq] at hs; exact hs.symm
+      · simp only [clearWrite]
+        obtain ⟨a, b⟩ := inv_write (sem := sem)
+          (st := { st with wraps := dset w (o, (funcCodeInfo Cfg.fixed cur ic).2) st.wraps, entries := [] })
+          rfl hw' o cur named
+        exact ⟨a, b, rfl⟩
 
-theorem isInCache_spec {sem : Src → Nat → R} {st : State R} (hi : Inv sem st) (o : Obj)
-    (src : Src) (named : Bool) (a : Nat) :
-    let r := isInCache .fixed st o src named a
-    Inv sem r.2 ∧ r.2.code = some src ∧ r.2.live = st.live ∧ (∀ v, r.1 = some v → v = sem src a) := by
-  obtain ⟨h1, h2, h3, _, _⟩ := checkPrevious_spec hi o src named
-  refine ⟨h1, h2, h3, fun v hv => ?_⟩
-  unfold isInCache at hv
-  simp only at hv
-  split at hv
-  · exact h1.vals src h2 a v hv
-  · cases hv
+theorem inv_store {sem : Src → Nat → R} {st : State R} (hi : Inv sem st) {cur : CodeId}
+    (hp : Post sem st cur) (a : Nat) :
+    Inv sem { st with entries := dset a (sem cur.2 a) st.entries } := by
+  have key : ∀ a' r, dget a' (dset a (sem cur.2 a) st.entries) = some r → r = sem cur.2 a' := by
+    intro a' r h
+    by_cases e : a' = a
+    · subst e; rw [dget_dset_self] at h; cases h; rfl
+    · rw [dget_dset_ne e] at h; exact hp.vals a' r h
+  refine ⟨fun h => absurd h hp.present, fun s hs a' r h => ?_, fun o c hw a' r h => ?_, hi.agree, hi.wraps⟩
+  · rw [hp.code s hs]; exact key a' r h
+  · rw [hp.wr o c hw]; exact key a' r h
 
-theorem inv_store {sem : Src → Nat → R} {st : State R} (hi : Inv sem st) {src : Src}
-    (hc : st.code = some src) (a : Nat) :
-    Inv sem { st with entries := dset a (sem src a) st.entries } := by
-  refine ⟨fun h => by simp [hc] at h, fun c hc' a' r h => ?_, fun o s h => hi.writer o s h⟩
-  have hcc : c = src := by
-    have : st.code = some c := hc'
-    rw [hc] at this; cases this; rfl
-  subst hcc
-  by_cases e : a' = a
-  · subst e
-    rw [show ({ st with entries := dset a' (sem c a') st.entries } : State R).entries
-        = dset a' (sem c a') st.entries from rfl, dget_dset_self] at h
-    cases h; rfl
-  · rw [show ({ st with entries := dset a (sem c a) st.entries } : State R).entries
-        = dset a (sem c a) st.entries from rfl, dget_dset_ne e] at h
-    exact hi.vals c hc a' r h
+theorem lookup_infoOK {sem : Src → Nat → R} {st : State R} (hi : Inv sem st) {w : Nat} {o : Obj}
+    {cur : CodeId} {named : Bool} {ic : InfoCache} (h : lookup st w = some (o, cur, named, ic)) :
+    InfoOK ic := by
+  unfold lookup at h
+  split at h
+  · cases h
+  · rename_i o' ic' hw
+    split at h
+    · cases h
+    · cases h; exact hi.wraps w _ _ hw
 
-/-- One step of the repaired code keeps the invariant and is `Correct`. -/
-theorem step_spec {sem : Src → Nat → R} {st : State R} (hi : Inv sem st) (op : Op) :
-    Inv sem (step .fixed sem st op).2 ∧ Correct sem st op (step .fixed sem st op).1 := by
+/-- One step of the repaired code (other than deleting `func_code.py`) keeps the invariant and is
+`Correct`. -/
+theorem step_spec {sem : Src → Nat → R} {st : State R} (hi : Inv sem st) (op : Op) (hnd : NoDelete op) :
+    Inv sem (step Cfg.fixed sem st op).2 ∧ Correct sem st op (step Cfg.fixed sem st op).1 := by
+  have hn : st.code = .missing → st.entries = [] := fun h => (hi.missing h).1
   cases op with
-  | define o k named => exact ⟨⟨hi.empty, hi.vals, hi.writer⟩, trivial⟩
-  | swap o k =>
+  | define o k named =>
+    exact ⟨⟨hi.missing, hi.stored, hi.writer, hi.agree, wraps_dset hi.wraps o o infoOK_none⟩, trivial⟩
+  | wrap w o =>
     simp only [step]
     split
-    · exact ⟨⟨hi.empty, hi.vals, hi.writer⟩, trivial⟩
+    · exact ⟨⟨hi.missing, hi.stored, hi.writer, hi.agree, wraps_dset hi.wraps w o infoOK_none⟩, trivial⟩
     · exact ⟨hi, trivial⟩
-  | call o a =>
+  | swap o c =>
+    simp only [step]
+    split
+    · exact ⟨⟨hi.missing, hi.stored, hi.writer, hi.agree, hi.wraps⟩, trivial⟩
+    · exact ⟨hi, trivial⟩
+  | call w a =>
     simp only [step, Correct]
-    cases hl : dget o st.live with
+    cases hl : lookup st w with
     | none => exact ⟨hi, rfl⟩
     | some p =>
-      obtain ⟨src, named⟩ := p
-      obtain ⟨h1, h2, _, h4⟩ := isInCache_spec hi o src named a
-      simp only
-      cases hr : (isInCache .fixed st o src named a).1 with
+      obtain ⟨o, cur, named, ic⟩ := p
+      obtain ⟨h1, h2, _⟩ := checkPrevious_spec hi hn w o cur named (lookup_infoOK hi hl)
+      simp only [isInCache]
+      cases hr : (if (checkPrevious Cfg.fixed st w o cur named ic).1 = true then
+          dget a (checkPrevious Cfg.fixed st w o cur named ic).2.entries else none) with
       | some v =>
         simp only
-        exact ⟨h1, .inl (by rw [h4 v hr])⟩
+        refine ⟨h1, .inl ?_⟩
+        split at hr
+        · rw [h2.vals a v hr]
+        · cases hr
       | none =>
         simp only
         exact ⟨inv_store h1 h2 a, by simp⟩
-  | check o a =>
+  | check w a =>
     simp only [step]
-    cases hl : dget o st.live with
+    cases hl : lookup st w with
     | none => exact ⟨hi, trivial⟩
     | some p =>
-      obtain ⟨src, named⟩ := p
-      exact ⟨(isInCache_spec hi o src named a).1, trivial⟩
-  | clearFn o =>
+      obtain ⟨o, cur, named, ic⟩ := p
+      exact ⟨(checkPrevious_spec hi hn w o cur named (lookup_infoOK hi hl)).1, trivial⟩
+  | clearFn w =>
     simp only [step]
-    cases hl : dget o st.live with
+    cases hl : lookup st w with
     | none => exact ⟨hi, trivial⟩
-    | some p => exact ⟨inv_clearFn _ _ _ _, trivial⟩
+    | some p =>
+      obtain ⟨o, cur, named, ic⟩ := p
+      obtain ⟨f1, f2⟩ := funcCodeInfo_fixed (cur := cur) (lookup_infoOK hi hl)
+      simp only [f1, clearWrite]
+      exact ⟨(inv_write (sem := sem)
+        (st := { st with wraps := dset w (o, (funcCodeInfo Cfg.fixed cur ic).2) st.wraps, entries := [] })
+        rfl (wraps_dset hi.wraps w o f2) o cur named).1, trivial⟩
   | clearAll =>
-    exact ⟨⟨fun _ => rfl, fun c h => by simp [step] at h, fun o s h => by simp [step] at h⟩, trivial⟩
+    exact ⟨⟨fun _ => ⟨rfl, rfl⟩, fun s h => by simp [step] at h, fun o c h => by simp [step] at h,
+      fun s o c h => by simp [step] at h, hi.wraps⟩, trivial⟩
+  | damage d =>
+    cases d with
+    | delete => exact absurd hnd (by simp [NoDelete])
+    | unreadable =>
+      cases hc : st.code <;> simp only [step, applyDamage, hc]
+      · exact ⟨⟨fun _ => hi.missing hc, (fun s h => by cases h), hi.writer, (fun s o c h => by cases h), hi.wraps⟩, trivial⟩
+      all_goals exact ⟨⟨(fun h => by cases h), (fun s h => by cases h), hi.writer, (fun s o c h => by cases h), hi.wraps⟩, trivial⟩
+    | other =>
+      cases hc : st.code <;> simp only [step, applyDamage, hc]
+      · exact ⟨⟨fun _ => hi.missing hc, (fun s h => by cases h), hi.writer, (fun s o c h => by cases h), hi.wraps⟩, trivial⟩
+      all_goals exact ⟨⟨(fun h => by cases h), (fun s h => by cases h), hi.writer, (fun s o c h => by cases h), hi.wraps⟩, trivial⟩
   | fresh =>
-    exact ⟨⟨hi.empty, hi.vals, fun o s h => by simp [step] at h⟩, trivial⟩
+    exact ⟨⟨fun h => ⟨(hi.missing h).1, rfl⟩, hi.stored, fun o c h => by simp [step] at h,
+      fun s o c _ h => by simp [step] at h, fun w o ic h => by simp [step, dget] at h⟩, trivial⟩
 
 theorem allCorrect_of_inv {sem : Src → Nat → R} : ∀ (ops : List Op) (st : State R), Inv sem st →
-    AllCorrect .fixed sem st ops
-  | [], _, _ => trivial
-  | op :: ops, _, hi =>
-    ⟨(step_spec hi op).2, allCorrect_of_inv ops _ (step_spec hi op).1⟩
+    (∀ op ∈ ops, NoDelete op) → AllCorrect Cfg.fixed sem st ops
+  | [], _, _, _ => trivial
+  | op :: ops, _, hi, hnd =>
+    ⟨(step_spec hi op (hnd op List.mem_cons_self)).2,
+      allCorrect_of_inv ops _ (step_spec hi op (hnd op List.mem_cons_self)).1
+        fun o ho => hnd o (List.mem_cons_of_mem _ ho)⟩
 
 theorem inv_exec {sem : Src → Nat → R} : ∀ (ops : List Op) (st : State R), Inv sem st →
-    Inv sem (exec .fixed sem st ops)
-  | [], _, hi => hi
-  | op :: ops, _, hi => inv_exec ops _ (step_spec hi op).1
+    (∀ op ∈ ops, NoDelete op) → Inv sem (exec Cfg.fixed sem st ops)
+  | [], _, hi, _ => hi
+  | op :: ops, _, hi, hnd =>
+    inv_exec ops _ (step_spec hi op (hnd op List.mem_cons_self)).1 fun o ho => hnd o (List.mem_cons_of_mem _ ho)
 
-theorem exec_append (ver : Version) (sem : Src → Nat → R) : ∀ (a b : List Op) (st : State R),
-    exec ver sem st (a ++ b) = exec ver sem (exec ver sem st a) b
+theorem exec_append (cfg : Cfg) (sem : Src → Nat → R) : ∀ (a b : List Op) (st : State R),
+    exec cfg sem st (a ++ b) = exec cfg sem (exec cfg sem st a) b
   | [], _, _ => rfl
-  | _ :: a, b, _ => exec_append ver sem a b _
+  | _ :: a, b, _ => exec_append cfg sem a b _
+
+theorem quiet_noDelete {k : Src} {op : Op} (h : Quiet k op) : NoDelete op := by
+  cases op <;> simp [Quiet, NoDelete] at h ⊢
 
 /-! ## unchanged code keeps its cache -/
 
-/-- A hit: the stored code is the function's own and the entry is there ⇒ the call is served from
-the cache and nothing changes. -/
-theorem call_hit {sem : Src → Nat → R} {st : State R} {o : Obj} {k : Src}
-    {named : Bool} {a : Nat} {r : R} (hl : dget o st.live = some (k, named))
-    (hc : st.code = some k) (he : dget a st.entries = some r) :
-    step .fixed sem st (.call o a) = (.value r false, st) := by
-  have hcp : checkPrevious .fixed st o k named = (true, st) := by
-    unfold checkPrevious
-    split
-    · rfl
-    · simp [hc]
-  simp [step, hl, isInCache, hcp, he]
-
-/-- All live functions have source `k`, and the stored code (if any) is `k`. -/
+/-- All live functions run code with source `k`, and the stored code (if any) is `k`. -/
 def AllSrc (k : Src) (st : State R) : Prop :=
-  (∀ o s n, dget o st.live = some (s, n) → s = k) ∧ (∀ c, st.code = some c → c = k)
+  (∀ o c n, dget o st.live = some (c, n) → c.2 = k) ∧ (st.code = .missing ∨ st.code = .ok k)
 
 theorem allSrc_init (k : Src) : AllSrc k (init : State R) :=
-  ⟨fun o s n h => by simp [init, dget] at h, fun c h => by simp [init] at h⟩
+  ⟨fun o c n h => by simp [init, dget] at h, .inl rfl⟩
 
 theorem dget_dset_cases {κ ν : Type} [DecidableEq κ] {k k' : κ} {v w : ν} {d : List (κ × ν)}
     (h : dget k' (dset k v d) = some w) : (k' = k ∧ w = v) ∨ (k' ≠ k ∧ dget k' d = some w) := by
@@ -219,119 +327,139 @@ theorem dget_dset_cases {κ ν : Type} [DecidableEq κ] {k k' : κ} {v w : ν} {
   · subst e; rw [dget_dset_self] at h; cases h; exact .inl ⟨rfl, rfl⟩
   · rw [dget_dset_ne e] at h; exact .inr ⟨e, h⟩
 
-/-- A quiet step keeps `AllSrc`, the invariant, and every entry. -/
+theorem lookup_live {st : State R} {w : Nat} {o : Obj} {cur : CodeId} {named : Bool} {ic : InfoCache}
+    (h : lookup st w = some (o, cur, named, ic)) : dget o st.live = some (cur, named) := by
+  unfold lookup at h
+  split at h
+  · cases h
+  · split at h
+    · cases h
+    · rename_i hl; cases h; exact hl
+
+/-- With the stored code (if any) equal to the current code's source, the check keeps every entry
+and leaves the stored code equal to that source. -/
+theorem checkPrevious_keep {sem : Src → Nat → R} {st : State R} (hi : Inv sem st) (w : Nat) (o : Obj)
+    (cur : CodeId) (named : Bool) {ic : InfoCache} (hic : InfoOK ic)
+    (hc : st.code = .missing ∨ st.code = .ok cur.2) :
+    let r := checkPrevious Cfg.fixed st w o cur named ic
+    r.2.entries = st.entries ∧ r.2.code = .ok cur.2 ∧
+      (st.code = .ok cur.2 → r.1 = true) := by
+  obtain ⟨f1, _⟩ := funcCodeInfo_fixed (cur := cur) hic
+  unfold checkPrevious
+  split
+  · rename_i hs
+    have hp := shortcut_post hi hs
+    refine ⟨rfl, ?_, fun _ => rfl⟩
+    rcases hc with hc | hc
+    · exact absurd hc hp.present
+    · exact hc
+  · simp only [f1]
+    rcases hc with hc | hc
+    · simp [hc, writeFuncCode]
+    · simp [hc]
+
+/-- A quiet step keeps `AllSrc` and every entry. -/
 theorem quiet_step {sem : Src → Nat → R} {k : Src} {st : State R} (hi : Inv sem st)
     (hs : AllSrc k st) {op : Op} (hq : Quiet k op) :
-    AllSrc k (step .fixed sem st op).2 ∧
-      ∀ a r, dget a st.entries = some r → dget a (step .fixed sem st op).2.entries = some r := by
+    AllSrc k (step Cfg.fixed sem st op).2 ∧
+      ∀ a r, dget a st.entries = some r → dget a (step Cfg.fixed sem st op).2.entries = some r := by
   cases op with
   | define o k' named =>
     simp only [Quiet] at hq
     subst hq
-    refine ⟨⟨fun o' s n h => ?_, hs.2⟩, fun a r h => h⟩
+    refine ⟨⟨fun o' c n h => ?_, hs.2⟩, fun a r h => h⟩
     simp only [step] at h
     rcases dget_dset_cases h with ⟨_, e⟩ | ⟨_, h'⟩
     · cases e; rfl
-    · exact hs.1 o' s n h'
-  | swap o k' =>
+    · exact hs.1 o' c n h'
+  | wrap w o =>
+    simp only [step]
+    split <;> exact ⟨hs, fun a r h => h⟩
+  | swap o c =>
     simp only [Quiet] at hq
-    subst hq
     simp only [step]
     split
-    · refine ⟨⟨fun o' s n h => ?_, hs.2⟩, fun a r h => h⟩
+    · refine ⟨⟨fun o' c' n h => ?_, hs.2⟩, fun a r h => h⟩
       rcases dget_dset_cases h with ⟨_, e⟩ | ⟨_, h'⟩
-      · cases e; rfl
-      · exact hs.1 o' s n h'
+      · cases e; exact hq
+      · exact hs.1 o' c' n h'
     · exact ⟨hs, fun a r h => h⟩
-  | call o a =>
+  | call w a =>
     simp only [step]
-    cases hl : dget o st.live with
+    cases hl : lookup st w with
     | none => exact ⟨hs, fun a r h => h⟩
     | some p =>
-      obtain ⟨src, named⟩ := p
-      have hsrc : src = k := hs.1 o src named hl
-      subst hsrc
-      obtain ⟨h1, h2, h3, h4, h5⟩ := checkPrevious_spec hi o src named
-      have keep : ∀ a' r, dget a' st.entries = some r →
-          dget a' (checkPrevious .fixed st o src named).2.entries = some r := by
-        intro a' r h
-        cases hb : (checkPrevious .fixed st o src named).1 with
-        | true => rw [h4 hb]; exact h
-        | false =>
-          -- a `False` answer means the stored code was absent or different: both impossible with
-          -- an entry present and `AllSrc`
-          exfalso
-          unfold checkPrevious at hb
-          split at hb
-          · simp at hb
-          · split at hb
-            · rename_i hc
-              rw [hi.empty hc] at h; simp [dget] at h
-            · rename_i old hc
-              split at hb
-              · simp at hb
-              · rename_i hne
-                exact hne (hs.2 old hc)
-      have hall : AllSrc src (checkPrevious .fixed st o src named).2 :=
-        ⟨fun o' s n h => hs.1 o' s n (h3 ▸ h), fun c h => by rw [h2] at h; cases h; rfl⟩
+      obtain ⟨o, cur, named, ic⟩ := p
+      have hk : cur.2 = k := hs.1 o cur named (lookup_live hl)
+      have hc : st.code = .missing ∨ st.code = .ok cur.2 := by rw [hk]; exact hs.2
+      obtain ⟨k1, k2, k3⟩ := checkPrevious_keep hi w o cur named (lookup_infoOK hi hl) hc
+      obtain ⟨_, _, k4⟩ := checkPrevious_spec hi (fun h => (hi.missing h).1) w o cur named (lookup_infoOK hi hl)
+      have hall : AllSrc k (checkPrevious Cfg.fixed st w o cur named ic).2 :=
+        ⟨fun o' c n h => hs.1 o' c n (k4 ▸ h), .inr (by rw [k2, hk])⟩
       simp only [isInCache]
-      cases hr : (if (checkPrevious .fixed st o src named).1 = true then
-          dget a (checkPrevious .fixed st o src named).2.entries else none) with
-      | some v => simp only; exact ⟨hall, keep⟩
+      cases hr : (if (checkPrevious Cfg.fixed st w o cur named ic).1 = true then
+          dget a (checkPrevious Cfg.fixed st w o cur named ic).2.entries else none) with
+      | some v => simp only; exact ⟨hall, fun a' r h => by rw [k1]; exact h⟩
       | none =>
         simp only
         refine ⟨hall, fun a' r h => ?_⟩
-        have h' := keep a' r h
+        show dget a' (dset a _ _) = some r
+        rw [k1]
         by_cases e : a' = a
         · subst e
-          -- the entry was there, so the lookup cannot have missed
+          -- the entry was there: the stored code was `k` (not missing), so the check said yes and
+          -- the lookup cannot have missed
           exfalso
-          cases hb : (checkPrevious .fixed st o src named).1 with
-          | true => simp [hb, h'] at hr
-          | false => rw [h5 hb] at h'; simp [dget] at h'
-        · show dget a' (dset a _ _) = some r
-          rw [dget_dset_ne e]; exact h'
-  | check o a =>
+          have hcode : st.code = .ok cur.2 := by
+            rcases hc with hc | hc
+            · rw [(hi.missing hc).1] at h; simp [dget] at h
+            · exact hc
+          simp [k3 hcode, k1, h] at hr
+        · rw [dget_dset_ne e]; exact h
+  | check w a =>
     simp only [step]
-    cases hl : dget o st.live with
+    cases hl : lookup st w with
     | none => exact ⟨hs, fun a r h => h⟩
     | some p =>
-      obtain ⟨src, named⟩ := p
-      have hsrc : src = k := hs.1 o src named hl
-      subst hsrc
-      obtain ⟨h1, h2, h3, h4, h5⟩ := checkPrevious_spec hi o src named
-      refine ⟨⟨fun o' s n h => hs.1 o' s n (h3 ▸ h), fun c h => by
-        simp only [isInCache] at h; rw [h2] at h; cases h; rfl⟩, fun a' r h => ?_⟩
-      simp only [isInCache]
-      cases hb : (checkPrevious .fixed st o src named).1 with
-      | true => rw [h4 hb]; exact h
-      | false =>
-        exfalso
-        unfold checkPrevious at hb
-        split at hb
-        · simp at hb
-        · split at hb
-          · rename_i hc
-            rw [hi.empty hc] at h; simp [dget] at h
-          · rename_i old hc
-            split at hb
-            · simp at hb
-            · rename_i hne
-              exact hne (hs.2 old hc)
-  | clearFn o => simp [Quiet] at hq
+      obtain ⟨o, cur, named, ic⟩ := p
+      have hk : cur.2 = k := hs.1 o cur named (lookup_live hl)
+      have hc : st.code = .missing ∨ st.code = .ok cur.2 := by rw [hk]; exact hs.2
+      obtain ⟨k1, k2, _⟩ := checkPrevious_keep hi w o cur named (lookup_infoOK hi hl) hc
+      obtain ⟨_, _, k4⟩ := checkPrevious_spec hi (fun h => (hi.missing h).1) w o cur named (lookup_infoOK hi hl)
+      exact ⟨⟨fun o' c n h => hs.1 o' c n (k4 ▸ h), .inr (by simp only [isInCache]; rw [k2, hk])⟩,
+        fun a' r h => by simp only [isInCache]; rw [k1]; exact h⟩
+  | clearFn w => simp [Quiet] at hq
   | clearAll => simp [Quiet] at hq
+  | damage d => simp [Quiet] at hq
   | fresh =>
-    exact ⟨⟨fun o s n h => by simp [step, dget] at h, hs.2⟩, fun a r h => h⟩
+    exact ⟨⟨fun o c n h => by simp [step, dget] at h, hs.2⟩, fun a r h => h⟩
 
 theorem quiet_exec {sem : Src → Nat → R} {k : Src} : ∀ (ops : List Op) (st : State R), Inv sem st →
     AllSrc k st → (∀ op ∈ ops, Quiet k op) →
-    AllSrc k (exec .fixed sem st ops) ∧
-      ∀ a r, dget a st.entries = some r → dget a (exec .fixed sem st ops).entries = some r
+    AllSrc k (exec Cfg.fixed sem st ops) ∧
+      ∀ a r, dget a st.entries = some r → dget a (exec Cfg.fixed sem st ops).entries = some r
   | [], _, _, hs, _ => ⟨hs, fun _ _ h => h⟩
   | op :: ops, st, hi, hs, hq => by
     obtain ⟨s1, k1⟩ := quiet_step hi hs (hq op List.mem_cons_self)
-    obtain ⟨s2, k2⟩ := quiet_exec ops _ (step_spec hi op).1 s1
+    obtain ⟨s2, k2⟩ := quiet_exec ops _
+      (step_spec hi op (quiet_noDelete (hq op List.mem_cons_self))).1 s1
       (fun o ho => hq o (List.mem_cons_of_mem _ ho))
     exact ⟨s2, fun a r h => k2 a r (k1 a r h)⟩
+
+/-- A hit: the stored code is the current code's source and the entry is there ⇒ the call is served
+from the cache; the stored code and the entries are left as they are. -/
+theorem call_hit {sem : Src → Nat → R} {st : State R} (hi : Inv sem st) {w : Nat} {o : Obj}
+    {cur : CodeId} {named : Bool} {ic : InfoCache} {a : Nat} {r : R}
+    (hl : lookup st w = some (o, cur, named, ic)) (hc : st.code = .ok cur.2)
+    (he : dget a st.entries = some r) :
+    (step Cfg.fixed sem st (.call w a)).1 = .value r false ∧
+      (step Cfg.fixed sem st (.call w a)).2.entries = st.entries ∧
+      (step Cfg.fixed sem st (.call w a)).2.code = st.code := by
+  obtain ⟨k1, k2, k3⟩ := checkPrevious_keep hi w o cur named (lookup_infoOK hi hl) (.inr hc)
+  have e : step Cfg.fixed sem st (.call w a) =
+      (.value r false, (checkPrevious Cfg.fixed st w o cur named ic).2) := by
+    simp only [step, hl, isInCache, k3 hc, k1, he, if_true]
+  rw [e]
+  exact ⟨rfl, k1, by rw [k2, hc]⟩
 
 end JoblibModel.FuncCode
